@@ -603,6 +603,8 @@ def step_csv(st, ctx, work, si):
         raise _Ood("separator occurs inside the textual timestamp")
     E, N, U, T = st["cols"]
     track = gen.make_track(st["pts"], st["t_ms"], coord=st["srid"])
+    if (len(st["pts"]) + si) % 4 == 3:
+        track, _how = gen.derive(track, (st["pts"], si))
     exp = _truth(track)
     for e in exp:
         if int(e[0]) == -999999 or int(e[1]) == -999999:
